@@ -83,21 +83,6 @@ type vpC04Result struct {
 
 // ---------------------------------------------------------------- generators
 
-func vpC04Weighted(t *rapid.T, label string, vals []int, weights []int) int {
-	tot := 0
-	for _, w := range weights {
-		tot += w
-	}
-	x := rapid.IntRange(0, tot-1).Draw(t, label)
-	for i, w := range weights {
-		if x < w {
-			return vals[i]
-		}
-		x -= w
-	}
-	return vals[len(vals)-1]
-}
-
 func vpC04GenBodyLen(t *rapid.T, label string) int {
 	switch vpC04Weighted(t, label+".bucket", []int{0, 1, 2, 3, 4}, []int{2, 6, 6, 3, 1}) {
 	case 0:
@@ -286,41 +271,6 @@ func vpC04NewEnv(cfg *vpC04Cfg) *vpC04Env {
 		e.doer = e.pc
 	}
 	return e
-}
-
-func vpC04HostCleanerStopped(hc *HostClient) bool {
-	hc.connsLock.Lock()
-	defer hc.connsLock.Unlock()
-	return !hc.connsCleanerRun && hc.connsCount == 0
-}
-
-func vpC04PipelineRetired(pc *PipelineClient) bool {
-	pc.connClientsLock.Lock()
-	ccs := append([]*pipelineConnClient(nil), pc.connClients...)
-	pc.connClientsLock.Unlock()
-	for _, cc := range ccs {
-		cc.chLock.Lock()
-		live := cc.chs != nil
-		cc.chLock.Unlock()
-		if live {
-			return false
-		}
-	}
-	return true
-}
-
-// vpC04QuiescePipeline lets the PipelineClient's workers retire: they only stop after an idle
-// period on a healthy connection, so the origin keeps answering (promptly) until they are gone.
-func vpC04QuiescePipeline(pc *PipelineClient, o *vpC04Origin, max time.Duration) bool {
-	o.drain.Store(true)
-	dl := time.Now().Add(max)
-	for !vpC04PipelineRetired(pc) {
-		if time.Now().After(dl) {
-			return false
-		}
-		time.Sleep(2 * time.Millisecond)
-	}
-	return true
 }
 
 // close tears everything down and waits for the goroutines of the origin, the workers of a
@@ -745,28 +695,6 @@ func (w *vpC04Workload) run(steer bool, tag string) ([]string, string) {
 		return nil, ""
 	}
 	return complaints, fmt.Sprintf("%d violation(s):\n  %s\nconfig: %+v\nhistory:\n%s", len(complaints), strings.Join(complaints, "\n  "), *w.cfg, e.hist.dump(400))
-}
-
-// vpC04Report keeps the detailed report of the last failing execution: rapid only shrinks when a
-// re-run fails with the identical message, so the message passed to Fatalf has to be stable and
-// the (timestamped, schedule-dependent) history is printed separately.
-type vpC04Report struct {
-	mu     sync.Mutex
-	detail string
-}
-
-func (r *vpC04Report) set(s string) {
-	r.mu.Lock()
-	r.detail = s
-	r.mu.Unlock()
-}
-
-func (r *vpC04Report) flush(t *testing.T) {
-	r.mu.Lock()
-	defer r.mu.Unlock()
-	if t.Failed() && r.detail != "" {
-		t.Logf("recorded history of the last failing execution:\n%s", r.detail)
-	}
 }
 
 // ---------------------------------------------------------------- tests
